@@ -241,8 +241,13 @@ def verify_function(ctx, c, section, only_prop):
     gnotes = []
     real = inline_generators(real, _helper, gnotes)
     section["notes"].extend("%s: %s" % (c.name, n) for n in gnotes)
+    from .normalise import row_builders
+    rnotes = []
+    real = row_builders(real, rnotes)
+    section["notes"].extend("%s: %s" % (c.name, n) for n in rnotes)
     real, anotes = inline_aliases(real)
     if spec is not None:
+        spec = row_builders(spec)
         spec, _ = inline_aliases(spec)
     section["notes"].extend("%s: %s" % (c.name, n) for n in anotes)
     keys = ("obligations", "errors", "notes")
